@@ -125,7 +125,8 @@ fn parse_offset(tz: &str) -> Result<FixedOffset, String> {
     if tz.len() <= 3 {
         // +5, -12
         let hours_diff = tz.parse::<i32>().map_err(|e| e.to_string())?;
-        return Ok(FixedOffset::east_opt(hours_diff * 3600).expect("invalid timestamp"));
+        return FixedOffset::east_opt(hours_diff * 3600)
+            .ok_or_else(|| format!("invalid timezone offset: {tz}"));
     }
     let offset_format = if tz.contains(':') { "%:z" } else { "%z" };
     // apparently the easiest way to parse tz offset is parsing the complete datetime
